@@ -24,15 +24,15 @@ pub static NLA_FAULT: std::sync::Mutex<Option<(u8, Vec<u8>)>> = std::sync::Mutex
 pub struct SrvCfg { pub sel: u32, pub id: usize, pub uid: u16, pub version: u32, pub license_new: bool, pub share: u32, pub caps: Vec<Vec<u8>>, pub source: Vec<u8>, pub chal_flags: u32, pub inputs: Vec<String>, pub script: Vec<Act>, pub reactivate: Option<u32>, pub reuse: u8, pub jrefuse: u8, pub ber: u8 }
 #[derive(Clone, Debug)]
 pub enum Act { Send(Vec<u8>), Pause(u64), CloseNotify, Close,
-    /// note the moment (MARK): everything scripted so far has been handed to the socket
-    Mark,
-    /// wait until the observer has taken its snapshot (SNAPPED), at most this many ms
-    Await(u64) }
-/// rendez-vous between a scripted server and the observing harness thread (C20): the silent
-/// period is measured from the server's real last send, not from nominal sleep times, so that
-/// a loaded machine does not shift the two clocks against each other
-pub static MARK: Mutex<Option<std::time::Instant>> = Mutex::new(None);
-pub static SNAPPED: std::sync::atomic::AtomicBool = std::sync::atomic::AtomicBool::new(false);
+    /// note the moment: everything scripted so far has been handed to the socket
+    Mark(Rendezvous),
+    /// wait until the observer has taken its snapshot, at most this many ms
+    Await(Rendezvous, u64) }
+/// rendez-vous between ONE scripted server and the harness thread observing it (C20; the cases run concurrently, so
+/// each has its own): the silent period is measured from the server's real last send, not from nominal sleep
+/// times, so that a loaded machine does not shift the two clocks against each other
+#[derive(Clone, Debug, Default)]
+pub struct Rendezvous { pub mark: Arc<Mutex<Option<std::time::Instant>>>, pub snapped: Arc<std::sync::atomic::AtomicBool> }
 
 /// records every raw byte the server reads from the socket (pre-TLS bytes and TLS records)
 pub struct Tee { pub inner: UnixStream, pub log: Arc<Mutex<Vec<u8>>> }
@@ -183,8 +183,8 @@ pub fn serve(raw: UnixStream, s: SrvCfg, acc_key: Vec<u8>, rawlog: Arc<Mutex<Vec
                                     match act {
                                         Act::Send(b) => { if !write_all(&mut tls, b) { break; } }
                                         Act::Pause(ms) => std::thread::sleep(Duration::from_millis(*ms)),
-                                        Act::Mark => { *MARK.lock().unwrap() = Some(std::time::Instant::now()); }
-                                        Act::Await(ms) => { let t = std::time::Instant::now(); while !SNAPPED.load(std::sync::atomic::Ordering::SeqCst) && (t.elapsed().as_millis() as u64) < *ms { std::thread::sleep(Duration::from_millis(2)); } }
+                                        Act::Mark(rv) => { *rv.mark.lock().unwrap() = Some(std::time::Instant::now()); }
+                                        Act::Await(rv, ms) => { let t = std::time::Instant::now(); while !rv.snapped.load(std::sync::atomic::Ordering::SeqCst) && (t.elapsed().as_millis() as u64) < *ms { std::thread::sleep(Duration::from_millis(2)); } }
                                         Act::CloseNotify => { let _ = tls.shutdown(); }
                                         Act::Close => {
                                             // what the client wrote meanwhile is still in the socket: take it in before closing
